@@ -463,8 +463,9 @@ class ActiveTagValueProvider(UserDict):
 
     @staticmethod
     def use_value(value):
-        if callable(value):
+        if callable(value) and value is not Unknown:
             # -- RE-EVALUATE VALUE: Each time
+            # NOTE: Unknown placeholder (class) marks a missing category.
             value_func = value
             value = value_func()
         return value
